@@ -12,6 +12,7 @@
 From SF Require Import Model.Bytes Model.F64 Model.ShapeType Model.Shapes Model.Res Model.Encode Model.Writer
   Model.Prog Model.Decode Model.Reader Model.Complete Spec.Esri Spec.Denote.
 From SF Require Import Proofs.WriterInv Proofs.ReaderSeq Proofs.IndexReader Proofs.CompleteProofs.
+From SF Require Import Model.Paths Proofs.PathsProofs.
 Open Scope Z_scope.
 
 (** A call that fails because of its shape's type changes nothing anywhere:
@@ -73,3 +74,57 @@ Example C08_example :
   let cs := [(p, RowOk, 0); (q, RowOk, 1); (p, RowOk, 2)] in
   Forall ccall_ok cs /\ cacc [] [] cs = ([p; p], [0; 2]).
 Proof. split; [repeat constructor; cbn; discriminate|reflexivity]. Qed.
+
+(** ** By path: the three files of a shapefile (Model/Paths.v)
+    `Writer::from_path(p)` creates p, p.with_extension("shx") and
+    p.with_extension("dbf"); `Reader::from_path(p)` opens the same three.
+    Two shapefiles in one directory under different names with the same
+    extension share none of their files: each keeps its own index and its own
+    table, so shapes of one are never paired with rows of the other. *)
+Theorem C08_files_of_two_shapefiles_disjoint : forall (p q e e1 e2 : fname),
+  extension p = Some e -> extension q = Some e -> p <> q ->
+  In e1 [e; SHX; DBF] -> In e2 [e; SHX; DBF] -> with_ext p e1 <> with_ext q e2.
+Proof.
+  intros p q e e1 e2 Hp Hq Hne H1 H2.
+  destruct (extension_spec p e Hp) as (_ & He & _).
+  assert (D : forall x, In x [e; SHX; DBF] -> ~ In DOT x).
+  { intros x [<-|[<-|[<-|[]]]]; [exact He|exact dotfree_SHX|exact dotfree_DBF]. }
+  exact (siblings_disjoint p q e e1 e2 Hp Hq Hne (D e1 H1) (D e2 H2)).
+Qed.
+Print Assumptions C08_files_of_two_shapefiles_disjoint.
+
+(** The three files of one shapefile are three different files (unless the
+    name given for the .shp itself ends in ".shx" or ".dbf"), and they are the
+    files any of them designates: the siblings of a sibling are the siblings. *)
+Theorem C08_three_files : forall (p e : fname), extension p = Some e -> e <> SHX -> e <> DBF ->
+  p <> with_ext p SHX /\ p <> with_ext p DBF /\ with_ext p SHX <> with_ext p DBF /\
+  with_ext (with_ext p SHX) DBF = with_ext p DBF /\ with_ext (with_ext p DBF) SHX = with_ext p SHX.
+Proof.
+  intros p e Hp H1 H2. destruct (extension_spec p e Hp) as (Ep & He & _).
+  assert (Np : p <> []) by (intros ->; discriminate Hp).
+  split; [rewrite Ep at 1; apply siblings_distinct; exact H1|].
+  split; [rewrite Ep at 1; apply siblings_distinct; exact H2|].
+  split; [apply siblings_distinct; discriminate|].
+  split; apply with_ext_with_ext; auto using dotfree_SHX, dotfree_DBF.
+Qed.
+Print Assumptions C08_three_files.
+
+(** `Reader::from_path` without the table is refused, whatever else the directory holds. *)
+Theorem C08_missing_dbf : forall (f : dir) (n : fname), fs_get f (with_ext n DBF) = None -> cr_open f n = CMissingDbf.
+Proof. intros f n H. unfold cr_open. rewrite H. reflexivity. Qed.
+Print Assumptions C08_missing_dbf.
+
+(** After `Writer::from_path(n)` wrote its pairs, `Reader::from_path(n)` opens the writer's three files. *)
+Theorem C08_open_after_write : forall (f : dir) (n e : fname) (w : world) (rows : list Z),
+  extension n = Some e -> e <> SHX -> e <> DBF ->
+  cr_open (cw_store f n w rows) n = COpen (d_buf (w_shp w)) (Some (d_buf (w_shx w))) rows.
+Proof.
+  intros f n e w rows Hn H1 H2. destruct (C08_three_files n e Hn H1 H2) as (A & B & C & _).
+  unfold cr_open, cw_store. rewrite fs_get_set_same.
+  unfold sr_open. rewrite !(fs_get_set_other _ (with_ext n DBF)) by congruence.
+  pose proof (open_after_write f n (fun H => A (eq_sym H)) w) as Ho. unfold sr_open, files in Ho. cbn [fst snd] in Ho.
+  destruct (fs_get (sw_store (sw_create f n) n w) n) as [[b|r]|]; try discriminate.
+  destruct (fs_get (sw_store (sw_create f n) n w) (with_ext n SHX)) as [[b'|r']|]; try discriminate.
+  injection Ho as -> ->. reflexivity.
+Qed.
+Print Assumptions C08_open_after_write.
